@@ -52,6 +52,12 @@ class Source:
                 v = r.choice(self.issued[-8:])
             else:
                 v = r.randrange(2 ** 32).to_bytes(4, "big")
+        elif k == "any-previous-first":
+            # hand back a value issued at *any* earlier point of the process's life (the very first ones included), then a fresh one
+            if self.issued and self.calls % 2 == 1:
+                v = self.issued[r.randrange(min(len(self.issued), 64))] if r.random() < 0.5 else r.choice(self.issued)
+            else:
+                v = r.randrange(2 ** 32).to_bytes(4, "big")
         elif k == "zero-then-random":
             v = bytes(4) if self.calls % 3 else r.randrange(2 ** 32).to_bytes(4, "big")
         else:
@@ -152,6 +158,9 @@ def main(tier, seed):
     q = tier == "quick"
     sources = ["true", "low8", "repeat2", "repeat4", "repeat7", "cyclic", "previous-first", "zero-then-random"]
     batches = []
+    for i in range(4 if q else 16):
+        # long lives: thousands of creations, with values from the beginning of the history coming back at the end
+        batches.append({"kind": "hist", "sources": ["any-previous-first"], "reps": 1, "n": 2600 if q else 12000, "seed": seed * 11 + i})
     for i in range(8 if q else 32):
         batches.append({"kind": "hist", "sources": sources, "reps": 1 if q else 3, "n": 600 if q else 5000, "seed": seed * 7 + i})
     try:
